@@ -67,6 +67,10 @@ type bInst struct {
 	listAnswered bool
 	idle         IdleBehavior // model of the idle behaviour
 	created      bool         // created by this pool (else found in the cloud)
+	// dropOK: a list that the pool has received was computed at a moment when
+	// this instance, already created, was absent from the cloud's list
+	// (vanished / unlisted). Only then may the pool forget the instance.
+	dropOK bool
 }
 
 func (i *bInst) ID() cloud.InstanceID                           { return i.id }
@@ -119,6 +123,8 @@ type bHarness struct {
 	killGate map[string]*bGate // uuid -> gate that parks the next --kill for it
 	listGate map[*bInst]*bGate // instance -> gate that parks the ANSWER of the next --list (computed on arrival, delivered on release)
 	slow     []*bSlowProbe     // probes whose --list answer is parked
+	instGate *bGate            // parks the ANSWER of the next Instances() call (computed on arrival, delivered on release)
+	slowSync *bSlowSync        // the sync whose Instances() answer is parked
 	hist     []string
 	// R1 bookkeeping: uuid -> instance the pool started it on / saw it on
 	expect map[string]*bExpect
@@ -130,6 +136,18 @@ type bSlowProbe struct {
 	gate *bGate
 	done chan struct{}
 	pan  interface{}
+}
+
+// bSlowSync: a wp.getInstancesAndSync() running on its own goroutine whose
+// Instances() answer was computed when the call arrived at the cloud and is
+// delivered later: a slow, eventually consistent cloud API. Instances created
+// after the arrival are not in the answer.
+type bSlowSync struct {
+	gate   *bGate
+	done   chan struct{}
+	pan    interface{}
+	listed map[*bInst]bool // the answer
+	absent []*bInst        // created before the answer was computed, but not listed in it
 }
 
 type bGate struct {
@@ -169,13 +187,37 @@ func (h *bHarness) Create(it arvados.InstanceType, _ cloud.ImageID, tags cloud.I
 
 func (h *bHarness) Instances(cloud.InstanceTags) ([]cloud.Instance, error) {
 	h.mu.Lock()
-	defer h.mu.Unlock()
+	gate := h.instGate
+	h.instGate = nil
 	var r []cloud.Instance
+	listed := map[*bInst]bool{}
+	var absent []*bInst
 	for _, i := range h.insts {
 		if i.exists && !i.unlisted {
 			r = append(r, i)
+			listed[i] = true
+		} else {
+			absent = append(absent, i)
 		}
 	}
+	if gate == nil {
+		// answered at once: the pool applies this list before anything else
+		// happens in the model
+		for _, i := range absent {
+			i.dropOK = true
+		}
+		h.mu.Unlock()
+		return r, nil
+	}
+	// Slow call: the answer is what the cloud knew when the call arrived; it
+	// reaches the pool when the machine releases the gate. Instances created
+	// in between are not in it.
+	if h.slowSync != nil {
+		h.slowSync.listed, h.slowSync.absent = listed, absent
+	}
+	h.mu.Unlock()
+	gate.once.Do(func() { close(gate.arrived) })
+	<-gate.release
 	return r, nil
 }
 
@@ -404,6 +446,14 @@ func TestVerifC14bPool(t *testing.T) {
 				close(sp.gate.release)
 				<-sp.done
 			}
+			h.mu.Lock()
+			ss := h.slowSync
+			h.slowSync, h.instGate = nil, nil
+			h.mu.Unlock()
+			if ss != nil {
+				close(ss.gate.release)
+				<-ss.done
+			}
 			wp.Stop()
 			wp.mtx.Lock()
 			wkrs := make([]*worker, 0, len(wp.workers))
@@ -553,11 +603,19 @@ func TestVerifC14bPool(t *testing.T) {
 				wp.mtx.Lock()
 				_, inPool := wp.workers[ex.inst.id]
 				wp.mtx.Unlock()
-				if !inPool {
-					continue
-				}
 				p := ex.inst.procs[u]
 				alive := p != nil && p.alive
+				if !inPool {
+					// The pool may forget an instance only after it received a
+					// list that was computed while the instance (already
+					// created) was absent from the cloud. A list requested
+					// BEFORE the instance was created says nothing about it.
+					if !ex.inst.dropOK && !ex.inst.unlisted {
+						t.Fatalf("R1 (%s): the pool forgot instance %s, which exists, has been in every instance list computed since it was created, and on which %s was started/shown (process alive=%v); Running() therefore lacks %s\nRunning()=%v\nhistory:\n%s",
+							where, ex.inst.id, u, alive, u, running, strings.Join(h.hist, "\n"))
+					}
+					continue
+				}
 				tm, ok := running[u]
 				if !ok {
 					t.Fatalf("R1 (%s): Running() lacks %s (on %s, alive=%v, pool-learned-exit=%v, not forgotten)\nRunning()=%v\nhistory:\n%s",
@@ -722,6 +780,132 @@ func TestVerifC14bPool(t *testing.T) {
 				}
 				h.labels["slow-probe-delivered"] = true
 				h.logf("slowProbeDeliver(%s)", sp.inst.id)
+				nActions++
+			},
+			"slowSync": func(t *rapid.T) {
+				// the pool's periodic sync, with a slow and eventually consistent
+				// cloud: Instances() computes its answer now, the pool receives
+				// it after other actions (slowSyncDeliver) - e.g. after an
+				// instance was created, booted and given a container
+				h.mu.Lock()
+				busy := h.slowSync != nil
+				var ss *bSlowSync
+				if !busy {
+					ss = &bSlowSync{gate: &bGate{arrived: make(chan struct{}), release: make(chan struct{})}, done: make(chan struct{})}
+					h.slowSync, h.instGate = ss, ss.gate
+				}
+				h.mu.Unlock()
+				if busy {
+					t.Skip("a sync is already parked")
+				}
+				go func() {
+					defer close(ss.done)
+					defer func() { ss.pan = recover() }()
+					wp.getInstancesAndSync()
+				}()
+				select {
+				case <-ss.gate.arrived:
+					h.labels["slow-sync-parked"] = true
+					h.mu.Lock()
+					n := len(ss.listed)
+					h.mu.Unlock()
+					h.logf("slowSync: Instances() answered with %d instance(s), delivery parked", n)
+				case <-ss.done:
+					// did not get as far as Instances() (rate limited)
+					h.mu.Lock()
+					h.slowSync, h.instGate = nil, nil
+					h.mu.Unlock()
+					if ss.pan != nil {
+						t.Fatalf("R3: panic %q in sync\nhistory:\n%s", fmt.Sprint(ss.pan), strings.Join(h.hist, "\n"))
+					}
+					h.logf("slowSync: finished without calling Instances()")
+				}
+				nActions++
+			},
+			"slowSyncDeliver": func(t *rapid.T) {
+				h.mu.Lock()
+				ss := h.slowSync
+				h.slowSync = nil
+				var since, sinceBusy []string
+				if ss != nil {
+					for _, i := range ss.absent {
+						i.dropOK = true
+					}
+					known := map[*bInst]bool{}
+					for _, i := range ss.absent {
+						known[i] = true
+					}
+					for _, i := range h.insts {
+						if !ss.listed[i] && !known[i] && i.exists && !i.unlisted {
+							since = append(since, string(i.id))
+							for u, ex := range h.expect {
+								if ex.inst == i {
+									sinceBusy = append(sinceBusy, u+"@"+string(i.id))
+								}
+							}
+						}
+					}
+				}
+				h.mu.Unlock()
+				if ss == nil {
+					t.Skip("no parked sync")
+				}
+				close(ss.gate.release)
+				<-ss.done
+				if ss.pan != nil {
+					t.Fatalf("R3: panic %q when the parked instance list was delivered\nhistory:\n%s", fmt.Sprint(ss.pan), strings.Join(h.hist, "\n"))
+				}
+				sort.Strings(since)
+				sort.Strings(sinceBusy)
+				h.labels["slow-sync-delivered"] = true
+				if len(since) > 0 {
+					h.labels["stale-list-lacks-instance-created-since"] = true
+				}
+				if len(sinceBusy) > 0 {
+					h.labels["stale-list-lacks-instance-created-since-that-has-a-container"] = true
+				}
+				h.logf("slowSyncDeliver: stale list delivered; live instances created since it was computed: %v, containers on them: %v", since, sinceBusy)
+				nActions++
+			},
+			"readyNew": func(t *rapid.T) {
+				// create + boot + first probe in one step (a fast-booting VM),
+				// so that a new instance can be in service - and be given a
+				// container - while a slow sync is still in flight
+				if len(existing()) >= 4 {
+					t.Skip()
+				}
+				it := types[rapid.IntRange(0, 1).Draw(t, "type")]
+				h.mu.Lock()
+				h.createOK = true
+				before := len(h.insts)
+				h.mu.Unlock()
+				if !wp.Create(it) {
+					t.Skip("Create refused")
+				}
+				waitFor("Create to finish", func() bool {
+					wp.mtx.Lock()
+					defer wp.mtx.Unlock()
+					return len(wp.creating) == 0
+				})
+				h.mu.Lock()
+				var inst *bInst
+				if len(h.insts) > before {
+					inst = h.insts[len(h.insts)-1]
+					inst.booted = true
+				}
+				h.mu.Unlock()
+				if inst == nil {
+					t.Fatalf("VERIF-INFRA: Create returned true but the model cloud has no new instance")
+				}
+				wkr := workerOf(inst)
+				if wkr == nil {
+					t.Fatalf("VERIF-INFRA: no worker for the instance just created (%s)", inst.id)
+				}
+				guarded("probe("+string(inst.id)+")", func() { wkr.ProbeAndUpdate() })
+				wp.mtx.Lock()
+				st := wkr.state
+				wp.mtx.Unlock()
+				h.logf("readyNew(%s,%s)->%s", inst.id, it.Name, st)
 				nActions++
 			},
 			"age": func(t *rapid.T) {
@@ -1116,7 +1300,7 @@ func TestVerifC14bPool(t *testing.T) {
 			},
 		}
 		// weight the actions that move the pool's bookkeeping
-		for _, k := range []string{"start", "probe", "detachArrive", "detachReturn", "procExit", "sync", "slowProbe", "slowProbeDeliver"} {
+		for _, k := range []string{"start", "probe", "detachArrive", "detachReturn", "procExit", "sync", "slowProbe", "slowProbeDeliver", "slowSync", "slowSyncDeliver", "readyNew"} {
 			actions[k+"2"] = actions[k]
 		}
 		actions["probe3"] = actions["probe"]
